@@ -2,17 +2,17 @@
 (* C26: enumerate byte strings over Alphabet (byte values) up to MaxLen; TLC checks the round trip
    at specification level and exports (bytes, Escape(bytes)) for the Go driver. *)
 EXTENDS Escape, TLC, Json
-CONSTANTS Alphabet, MaxLen, ExportMin
+CONSTANTS Alphabet, MaxLen, ExportMin, Random   \* Random: one seeded random byte per step (tlc -simulate)
 VARIABLE b
 vars == <<b>>
 
 Init == b = <<>>
 Next == /\ Len(b) < MaxLen
-        /\ \E c \in Alphabet : b' = Append(b, c)
+        /\ \E c \in (IF Random THEN {RandomElement(Alphabet)} ELSE Alphabet) : b' = Append(b, c)
 Spec == Init /\ [][Next]_vars
 
 SpecRoundTrip == RoundTrip(b)
-SpecCompositional == \A k \in 0..Len(b) : Compositional(SubSeq(b, 1, k), SubSeq(b, k + 1, Len(b)))
+SpecPrintable == Printable(b)
 
 Case == [b |-> b, esc |-> Escape(b)]
 Export == Len(b) >= ExportMin => PrintT("CASE " \o ToJson(Case))
